@@ -9,7 +9,7 @@ import (
 func init() { register("C08", checkC08) }
 
 var c08Origins = []string{"literal", "literal-raw", "file", "file-dash", "file-blank", "stdin", "stdin-prompt", "stdin-last-unterminated", "cmd"}
-var c08Paths = []string{"print", "assign", "concat", "compare", "arg", "arg-direct", "return", "slice-store", "slice-literal", "slice-load-copy", "range-string", "range-nested", "multi-assign", "range-slice", "subscript", "len", "write", "panic", "switch"}
+var c08Paths = []string{"print", "assign", "concat", "compare", "arg", "arg-direct", "return", "slice-store", "slice-literal", "slice-load-copy", "range-string", "range-nested", "multi-assign", "redeclared", "range-slice", "subscript", "len", "write", "panic", "switch"}
 
 // c08Program builds the program for one (origin, path) with value v. ok=false
 // when the combination is not defined (e.g. a raw literal cannot hold a backquote).
@@ -111,6 +111,13 @@ func c08Program(origin, path, v, place string) (bc BashCase, ok bool) {
 		stmts = append(stmts, VarDecl{Names: []string{"l", "r"}, Short: true, Values: []Expr{V, call("flip", sl("p"), V)}}, pr(vr("l")), pr(vr("r")),
 			Assign{[]string{"l", "r"}, []Expr{call("flip", V, sl("k")), vr("l")}}, pr(vr("l")), pr(vr("r")),
 			VarDecl{Names: []string{"m1", "m2", "m3"}, Short: true, Values: []Expr{sl("first"), V, call("flip", sl("a"), call("flip", sl("b"), V))}}, pr(vr("m1")), pr(vr("m2")), pr(vr("m3")))
+	case "redeclared":
+		// a declaration without value runs again after the variable held the value: it is empty again
+		stmts = append(stmts, For{Kind: ForThree, Init: def("pass", il(0)), Cond: cmp("<", vr("pass"), il(2)), Post: IncDec{"pass", true}, Body: []Stmt{
+			VarDecl{Names: []string{"w"}, Type: TString}, pr(framed(vr("w"))), set("w", V), pr(vr("w")),
+			VarDecl{Names: []string{"ws"}, Type: TSliceString}, pr(Len{vr("ws")}), SliceSet{"ws", il(0), V}, pr(Index{"ws", il(0)})}},
+			fn("fresh", []Param{{"p", TString}, {"keep", TBool}}, []Type{TString}, VarDecl{Names: []string{"acc"}, Type: TString}, ifs(vr("keep"), set("acc", vr("p"))), ret(bin("+", bin("+", sl("<"), vr("acc")), sl(">")))),
+			pr(call("fresh", V, bl(true))), pr(call("fresh", V, bl(false))), pr(call("fresh", sl("other"), bl(true))), pr(call("fresh", V, bl(false))))
 	case "range-nested":
 		// two loops over operands of different lengths inside each other, in both orders
 		stmts = append(stmts, For{Kind: ForRange, RangeIdx: "i", RangeVal: "a", Over: V, Body: []Stmt{For{Kind: ForRange, RangeIdx: "j", RangeVal: "b", Over: sl("xy"), Body: []Stmt{pr(vr("i"), vr("j")), pr(bin("+", vr("a"), vr("b")))}}}}, pr(sl("middle")),
